@@ -442,7 +442,7 @@ func runC08(r *Run) {
 		r.Bad("R10", "anchor/evm Keeper.SetAccount", "", "not found")
 	}
 	r.Rule("R12", "see C09 R11 (imported): the schedule readers behind LockedCoins / GetVestedCoins / GetUnlockedCoins add every period's length to the running time — a skipped (e.g. empty) period makes every later event count too early and the bank's lock check lets the coins go")
-	r.Import("R12/C09.", []string{"R11", "R18"}, runC09)
+	r.Import("R12/C09.", []string{"R11", "R18", "R20"}, runC09)
 	r.Rule("R13", "see C11 R1 (imported): Liquidate — the one operation that rewrites a vesting schedule and moves the coins out in the same step, so that the bank's lock check has nothing left to refuse — passes its guards (no unvested coins at all, amount within the locked balance) on every path to the transfer")
 	r.Import("R13/C11.", []string{"R1"}, runC11)
 	r.Rule("R11", "PATH.selfdestruct-spares-vesting-accounts: a clawback vesting account can carry code (it implements EthAccountI; code can be deployed to its address), so SELFDESTRUCT can reach the EVM keeper's DeleteAccount for it. RemoveAccount is reachable there only over the edge on which the stored account is NOT a vesting account (a failed assertion to vesting exported.VestingAccount / *ClawbackVestingAccount) — deleting the account deletes its lock-up and vesting schedule, its delegation tracking and its funder: coins that come back from unbonding later are free")
